@@ -119,3 +119,41 @@ Example client_delays :
   fst (retry_loop (client_backoff 1000 0) (repeat (AtFail false true) 5) 0) =
   [200 * ms; 400 * ms; 800 * ms; 1000 * ms; 1000 * ms].
 Proof. vm_compute. reflexivity. Qed.
+
+(* ---- no panic: the Duration multiplication never overflows when max * mult fits ---- *)
+Lemma advance_params b : let '(b', _) := advance b in
+  b_max b' = b_max b /\ b_mult b' = b_mult b /\ b_max_count b' = b_max_count b /\ b_initial b' = b_initial b.
+Proof.
+  unfold advance. destruct (negb (b_max_count b =? 0) && (b_max_count b <=? b_count b)); [auto|].
+  destruct (DURATION_MAX <? N.min (b_current b) (b_max b) * b_mult b); cbn; auto.
+Qed.
+
+Lemma advance_no_panic b : b_max b * b_mult b <= DURATION_MAX -> snd (advance b) <> APanic.
+Proof.
+  intros H. unfold advance. destruct (negb (b_max_count b =? 0) && (b_max_count b <=? b_count b)); [discriminate|].
+  destruct (N.ltb_spec DURATION_MAX (N.min (b_current b) (b_max b) * b_mult b)) as [L|L]; [|discriminate].
+  exfalso. nia.
+Qed.
+
+Theorem retry_loop_no_panic : forall script b k, b_max b * b_mult b <= DURATION_MAX ->
+  snd (retry_loop b script k) <> FPanic.
+Proof.
+  induction script as [|a script IH]; intros b k H; cbn [retry_loop snd]; [discriminate|].
+  destruct a as [|connected retryable]; cbn [snd]; [discriminate|].
+  destruct retryable; cbn [negb snd]; [|discriminate].
+  set (b1 := if connected then reset b else b).
+  assert (H1 : b_max b1 * b_mult b1 <= DURATION_MAX) by (unfold b1; destruct connected; exact H).
+  pose proof (advance_no_panic b1 H1) as NP. pose proof (advance_params b1) as AP.
+  destruct (advance b1) as [b' a]. cbn [snd] in NP. destruct AP as (Ex & Em & _ & _).
+  destruct a; cbn [snd]; try discriminate; try congruence.
+  specialize (IH b' (k + 1) ltac:(rewrite Ex, Em; exact H1)).
+  destruct (retry_loop b' script (k + 1)) as [ds f]. exact IH.
+Qed.
+
+(* the client's generator: for every max_retry_interval that fits the u64 argument, no overflow, ever *)
+Corollary client_never_panics script max_ms max_count k : max_ms < 2 ^ 64 ->
+  snd (retry_loop (client_backoff max_ms max_count) script k) <> FPanic.
+Proof.
+  intros H. apply retry_loop_no_panic. unfold client_backoff, bo_new, DURATION_MAX. cbn [b_max b_mult].
+  change (2 ^ 64) with 18446744073709551616 in H. lia.
+Qed.
